@@ -5,7 +5,7 @@ import json
 import random
 
 import pjrpc
-from pjrpc.server import AsyncDispatcher
+from pjrpc.server import AsyncDispatcher, ViewMixin
 
 from harness.lib.coqterm import cjson, clist, copt, cbool
 from harness.lib.dispenv import loop
@@ -14,7 +14,7 @@ ID = 'C10'
 CASE_TYPE = 'C10.case'
 EXTRA_IMPORTS = 'From PJ Require Import Model.Async.\n'
 RULE = ('batches of 1..3 (quick) / 1..4 (thorough) elements, each element a call or a notification of a method that succeeds / raises a '
-        'protocol error / raises another exception / is unknown / is a plain non-coroutine function, with 0..2 suspension points placed '
+        'protocol error / raises another exception / is unknown / is a plain non-coroutine function / is a method of a class-based view keeping per-call state on its instance across the suspension, with 0..2 suspension points placed '
         'in the method, in a middleware (before / after the inner handler) or in an error handler; every suspension point is a Future; '
         'ALL interleavings of the resolution order are enumerated (multiset permutations; sampled above 400 per shape in quick) for the '
         'concurrent mode, and the forced order for concurrent_batch=False. Each element is also dispatched ALONE to obtain its own trace '
@@ -87,6 +87,22 @@ def build(shape, gate, concurrent):
         return ['p', a]
     for f in (ok, fail, boom, plain):
         disp.add(f)
+
+    # a class-based view (no context): the library creates the instance for the request, so state kept on `self`
+    # across a suspension point belongs to that element alone
+    class View(ViewMixin):
+        async def vok(self, a):
+            gate.log.append((a, ['call', 'vok']))
+            self.a = a
+            await suspend(a, 'method')
+            return ['v', self.a]
+
+        async def vfail(self, a):
+            gate.log.append((a, ['call', 'vfail']))
+            self.a = a
+            await suspend(a, 'method')
+            raise pjrpc.exceptions.JsonRpcError(code=8, message='vf', data=self.a)
+    disp.view(View)
     return disp
 
 
@@ -163,7 +179,7 @@ def max_pending_seen(gate):
     return None
 
 
-METHODS = ['ok', 'fail', 'boom', 'plain', 'nosuch']
+METHODS = ['ok', 'fail', 'boom', 'plain', 'nosuch', 'vok', 'vfail']
 
 
 def shapes(tier, rnd):
@@ -180,6 +196,8 @@ def shapes(tier, rnd):
         [('ok', 1, 'method', False)],
         [('plain', 0, 'method', False), ('plain', 0, 'method', True)],
         [('ok', 2, 'method', False), ('ok', 0, 'method', False), ('ok', 1, 'method', False)],
+        [('vok', 1, 'method', False), ('vok', 0, 'method', False)],
+        [('vok', 2, 'method', False), ('vfail', 1, 'method', False), ('vok', 1, 'method', True)],
     ]
     out += base
     n_rand = 30 if tier == 'quick' else 160
